@@ -39,6 +39,10 @@ def find(qual, repo=None):
         node = None
         for n in body:
             if isinstance(n, (ast.FunctionDef, ast.ClassDef)) and n.name == p:
+                # a property has a getter and a setter of the same name: the contract is the getter's
+                if node is not None and isinstance(node, ast.FunctionDef) and \
+                        any(ast.unparse(d) == 'property' for d in node.decorator_list):
+                    continue
                 node = n
         if node is None:
             raise KeyError(f'{qual}: {p} not found in {module_path(mod, repo)}')
